@@ -1274,7 +1274,7 @@ package spec
 //@ axiom isExtKey("x-") && !isExtKey("description") && !isExtKey("title") && !isExtKey("termsOfService") && !isExtKey("contact") && !isExtKey("license") && !isExtKey("version")
 
 //@ func verifLemmaInfoRoundTrip
-//@   property C01, C19
+//@   property C01, C19, C06
 //@   requires isObj(jv(data)) && noDuplicates(jv(data))
 //@   requires nfKind(jv(data), "InfoProps", "info") && nfExtensions(jv(data))
 //@   requires requiredPresent(jv(data), "info")
@@ -1283,9 +1283,10 @@ package spec
 //@   excluding lossless @@ nfKindAll(jv(data), "InfoProps", "info")
 //@   ensures  [C19] required-kept @@ result != nil ==> requiredPresent(jv(result), "info")
 //@   excluding required-kept @@ nfKindAll(jv(data), "InfoProps", "info")
+//@   ensures  [C06] no-duplicate-members @@ result != nil ==> (forall k string :: oCnt(jv(result), k) <= 1)
 
 //@ func verifLemmaContactInfoRoundTrip
-//@   property C01, C19
+//@   property C01, C19, C06
 //@   requires isObj(jv(data)) && noDuplicates(jv(data))
 //@   requires nfKind(jv(data), "ContactInfoProps", "contact") && nfExtensions(jv(data))
 //@   requires requiredPresent(jv(data), "contact")
@@ -1295,9 +1296,10 @@ package spec
 //@   excluding lossless @@ nfKindAll(jv(data), "ContactInfoProps", "contact")
 //@   ensures  [C19] required-kept @@ result != nil ==> requiredPresent(jv(result), "contact")
 //@   excluding required-kept @@ nfKindAll(jv(data), "ContactInfoProps", "contact")
+//@   ensures  [C06] no-duplicate-members @@ result != nil ==> (forall k string :: oCnt(jv(result), k) <= 1)
 
 //@ func verifLemmaLicenseRoundTrip
-//@   property C01, C19
+//@   property C01, C19, C06
 //@   requires isObj(jv(data)) && noDuplicates(jv(data))
 //@   requires nfKind(jv(data), "LicenseProps", "license") && nfExtensions(jv(data))
 //@   requires requiredPresent(jv(data), "license")
@@ -1307,9 +1309,10 @@ package spec
 //@   excluding lossless @@ nfKindAll(jv(data), "LicenseProps", "license")
 //@   ensures  [C19] required-kept @@ result != nil ==> requiredPresent(jv(result), "license")
 //@   excluding required-kept @@ nfKindAll(jv(data), "LicenseProps", "license")
+//@   ensures  [C06] no-duplicate-members @@ result != nil ==> (forall k string :: oCnt(jv(result), k) <= 1)
 
 //@ func verifLemmaTagRoundTrip
-//@   property C01, C19
+//@   property C01, C19, C06
 //@   requires isObj(jv(data)) && noDuplicates(jv(data))
 //@   requires nfKind(jv(data), "TagProps", "tag") && nfExtensions(jv(data))
 //@   requires requiredPresent(jv(data), "tag")
@@ -1319,9 +1322,10 @@ package spec
 //@   excluding lossless @@ nfKindAll(jv(data), "TagProps", "tag")
 //@   ensures  [C19] required-kept @@ result != nil ==> requiredPresent(jv(result), "tag")
 //@   excluding required-kept @@ nfKindAll(jv(data), "TagProps", "tag")
+//@   ensures  [C06] no-duplicate-members @@ result != nil ==> (forall k string :: oCnt(jv(result), k) <= 1)
 
 //@ func verifLemmaHeaderRoundTrip
-//@   property C01, C19
+//@   property C01, C19, C06
 //@   requires isObj(jv(data)) && noDuplicates(jv(data))
 //@   requires nfKind(jv(data), "CommonValidations", "header") && nfKind(jv(data), "SimpleSchema", "header") && nfKind(jv(data), "HeaderProps", "header") && nfExtensions(jv(data))
 //@   requires requiredPresent(jv(data), "header")
@@ -1331,6 +1335,7 @@ package spec
 //@   excluding lossless @@ nfKindAll(jv(data), "CommonValidations", "header") && nfKindAll(jv(data), "SimpleSchema", "header") && nfKindAll(jv(data), "HeaderProps", "header")
 //@   ensures  [C19] required-kept @@ result != nil ==> requiredPresent(jv(result), "header")
 //@   excluding required-kept @@ nfKindAll(jv(data), "CommonValidations", "header") && nfKindAll(jv(data), "SimpleSchema", "header") && nfKindAll(jv(data), "HeaderProps", "header")
+//@   ensures  [C06] no-duplicate-members @@ result != nil ==> (forall k string :: oCnt(jv(result), k) <= 1)
 
 // ---- Ref codecs (C13) ------------------------------------------------------------------------------
 //@ define isRootV(r Ref) bool = r.referenceURL != nil && !((r.HasFileScheme && r.HasFullFilePath) || (!r.HasFileScheme && r.HasFullURL)) && !r.HasURLPathOnly && r.referenceURL.Fragment == ""
@@ -1388,7 +1393,7 @@ package spec
 //@   ensures  [C13] empty-ref-is-empty-object @@ result1 == nil && isObj(jv(result0)) && (forall k string :: oCnt(jv(result0), k) == 0)
 
 //@ func verifLemmaItemsRoundTrip
-//@   property C01, C19
+//@   property C01, C19, C06
 //@   requires isObj(jv(data)) && noDuplicates(jv(data))
 //@   requires nfKind(jv(data), "CommonValidations", "primitivesItems") && nfKind(jv(data), "SimpleSchema", "primitivesItems") && nfExtensions(jv(data)) && nfRefMember(jv(data))
 //@   requires requiredPresent(jv(data), "primitivesItems")
@@ -1398,9 +1403,10 @@ package spec
 //@   excluding lossless @@ nfKindAll(jv(data), "CommonValidations", "primitivesItems") && nfKindAll(jv(data), "SimpleSchema", "primitivesItems")
 //@   ensures  [C19] required-kept @@ result != nil ==> requiredPresent(jv(result), "primitivesItems")
 //@   excluding required-kept @@ nfKindAll(jv(data), "CommonValidations", "primitivesItems") && nfKindAll(jv(data), "SimpleSchema", "primitivesItems")
+//@   ensures  [C06] no-duplicate-members @@ result != nil ==> (forall k string :: oCnt(jv(result), k) <= 1)
 
 //@ func verifLemmaParameterRoundTrip
-//@   property C01, C19
+//@   property C01, C19, C06
 //@   requires isObj(jv(data)) && noDuplicates(jv(data))
 //@   requires nfKind(jv(data), "CommonValidations", "nonBodyParameter") && nfKind(jv(data), "SimpleSchema", "nonBodyParameter") && nfKind(jv(data), "ParamProps", "nonBodyParameter") && nfExtensions(jv(data)) && nfRefMember(jv(data))
 //@   requires requiredPresent(jv(data), "nonBodyParameter")
@@ -1410,9 +1416,10 @@ package spec
 //@   excluding lossless @@ nfKindAll(jv(data), "CommonValidations", "nonBodyParameter") && nfKindAll(jv(data), "SimpleSchema", "nonBodyParameter") && nfKindAll(jv(data), "ParamProps", "nonBodyParameter")
 //@   ensures  [C19] required-kept @@ result != nil ==> requiredPresent(jv(result), "nonBodyParameter")
 //@   excluding required-kept @@ nfKindAll(jv(data), "CommonValidations", "nonBodyParameter") && nfKindAll(jv(data), "SimpleSchema", "nonBodyParameter") && nfKindAll(jv(data), "ParamProps", "nonBodyParameter")
+//@   ensures  [C06] no-duplicate-members @@ result != nil ==> (forall k string :: oCnt(jv(result), k) <= 1)
 
 //@ func verifLemmaResponseRoundTrip
-//@   property C01, C19
+//@   property C01, C19, C06
 //@   requires isObj(jv(data)) && noDuplicates(jv(data))
 //@   requires nfKind(jv(data), "ResponseProps", "response") && nfExtensions(jv(data)) && nfRefMember(jv(data))
 //@   requires (oCnt(jv(data), "$ref") == 0 && requiredPresent(jv(data), "response")) || (oCnt(jv(data), "$ref") > 0 && (forall k string :: oCnt(jv(data), k) > 0 ==> k == "$ref"))
@@ -1420,9 +1427,10 @@ package spec
 //@   requires (forall k string :: (knownKey("ResponseProps", k)) ==> !isExtKey(k) && k != "$ref") && !isExtKey("$ref")
 //@   ensures  [C01,C19] lossless @@ result != nil ==> sameObject(jv(result), jv(data))
 //@   ensures  [C19] required-kept @@ result != nil && oCnt(jv(data), "$ref") == 0 ==> requiredPresent(jv(result), "response")
+//@   ensures  [C06] no-duplicate-members @@ result != nil ==> (forall k string :: oCnt(jv(result), k) <= 1)
 
 //@ func verifLemmaPathItemRoundTrip
-//@   property C01, C19
+//@   property C01, C19, C06
 //@   requires isObj(jv(data)) && noDuplicates(jv(data))
 //@   requires nfKind(jv(data), "PathItemProps", "pathItem") && nfExtensions(jv(data)) && nfRefMember(jv(data))
 //@   requires requiredPresent(jv(data), "pathItem")
@@ -1432,6 +1440,7 @@ package spec
 //@   excluding lossless @@ nfKindAll(jv(data), "PathItemProps", "pathItem")
 //@   ensures  [C19] required-kept @@ result != nil ==> requiredPresent(jv(result), "pathItem")
 //@   excluding required-kept @@ nfKindAll(jv(data), "PathItemProps", "pathItem")
+//@   ensures  [C06] no-duplicate-members @@ result != nil ==> (forall k string :: oCnt(jv(result), k) <= 1)
 
 // Kinds whose codecs are used opaquely (enc_T / dec_T) when a parent reaches them through json.Marshal / json.Unmarshal:
 // the parent's lemma assumes its members round-trip (the induction hypothesis), each kind's own lemma discharges it.
@@ -1473,11 +1482,12 @@ package spec
 //@   loop 0 invariant pths != nil && (forall k string :: has(pths, k) == ($seen0[k] && isPathKey(k))) && (forall k string :: has(pths, k) ==> pths[k] == p.Paths[k])
 
 //@ func verifLemmaPathsRoundTrip
-//@   property C01
+//@   property C01, C06
 //@   requires isObj(jv(data)) && noDuplicates(jv(data)) && nfExtensions(jv(data))
 //@   requires forall k string :: oCnt(jv(data), k) > 0 ==> isExtKey(k) || isPathKey(k)
 //@   requires forall k string :: oCnt(jv(data), k) > 0 && isPathKey(k) ==> decOKOf("PathItem", oVal(jv(data), k)) && encOf(decOf("PathItem", oVal(jv(data), k))) == oVal(jv(data), k)
 //@   ensures  [C01,C19] lossless @@ result != nil ==> sameObject(jv(result), jv(data))
+//@   ensures  [C06] no-duplicate-members @@ result != nil ==> (forall k string :: oCnt(jv(result), k) <= 1)
 
 // ---- Responses: "default" and decimal status codes flattened beside the extensions
 //@ specfn itoa(int) string
@@ -1560,7 +1570,7 @@ package spec
 // round-trips (the induction hypothesis, discharged by verifLemmaResponseRoundTrip)
 //@ define canonicalCodes(j smt:JV) bool = forall k string :: oCnt(j, k) > 0 && k != "default" && !isExtKey(k) ==> itoa(atoi(k)) == k
 //@ func verifLemmaResponsesRoundTrip
-//@   property C01, C19
+//@   property C01, C19, C06
 //@   chained
 //@   requires isObj(jv(data)) && noDuplicates(jv(data)) && nfExtensions(jv(data))
 //@   requires forall k string :: oCnt(jv(data), k) > 0 ==> k == "default" || isExtKey(k) || atoiOK(k)
@@ -1574,13 +1584,15 @@ package spec
 //@   excluding nothing-invented @@ canonicalCodes(jv(data))
 //@   ensures  [C01,C19] lossless @@ result != nil ==> sameObject(jv(result), jv(data))
 //@   excluding lossless @@ canonicalCodes(jv(data))
+//@   ensures  [C06] no-duplicate-members @@ result != nil ==> (forall k string :: oCnt(jv(result), k) <= 1)
 
 // ---- SecurityScheme: one lemma, one case per flavour of the meta-schema (the required list differs)
 //@ define ssType(j smt:JV) string = decOf("string", oVal(j, "type"))
 //@ define ssFlow(j smt:JV) string = decOf("string", oVal(j, "flow"))
 //@ define ssKeys(j smt:JV) bool = (forall k string :: oCnt(j, k) > 0 ==> knownKey("SecuritySchemeProps", k) || isExtKey(k)) && (forall k string :: knownKey("SecuritySchemeProps", k) ==> !isExtKey(k))
+
 //@ func verifLemmaSecuritySchemeRoundTrip
-//@   property C01, C19
+//@   property C01, C19, C06
 //@   requires isObj(jv(data)) && noDuplicates(jv(data)) && nfExtensions(jv(data)) && ssKeys(jv(data))
 //@   ensures  [C01,C19] basic @@ result != nil && nfKind(jv(data), "SecuritySchemeProps", "basicAuthenticationSecurity") && requiredPresent(jv(data), "basicAuthenticationSecurity") && ssType(jv(data)) == "basic" ==> sameObject(jv(result), jv(data))
 //@   ensures  [C01,C19] apiKey @@ result != nil && nfKind(jv(data), "SecuritySchemeProps", "apiKeySecurity") && requiredPresent(jv(data), "apiKeySecurity") && ssType(jv(data)) == "apiKey" ==> sameObject(jv(result), jv(data))
@@ -1592,15 +1604,18 @@ package spec
 //@   excluding oauth2-application @@ nfKindAll(jv(data), "SecuritySchemeProps", "oauth2ApplicationSecurity")
 //@   ensures  [C01,C19] oauth2-accessCode @@ result != nil && nfKind(jv(data), "SecuritySchemeProps", "oauth2AccessCodeSecurity") && requiredPresent(jv(data), "oauth2AccessCodeSecurity") && ssType(jv(data)) == "oauth2" && ssFlow(jv(data)) == "accessCode" ==> sameObject(jv(result), jv(data))
 //@   excluding oauth2-accessCode @@ nfKindAll(jv(data), "SecuritySchemeProps", "oauth2AccessCodeSecurity")
+//@   ensures  [C06] no-duplicate-members @@ result != nil ==> (forall k string :: oCnt(jv(result), k) <= 1)
 
 // ---- Operation
+
 //@ func verifLemmaOperationRoundTrip
-//@   property C01, C19
+//@   property C01, C19, C06
 //@   requires isObj(jv(data)) && noDuplicates(jv(data)) && nfExtensions(jv(data))
 //@   requires nfKind(jv(data), "OperationProps", "operation") && requiredPresent(jv(data), "operation")
 //@   requires (forall k string :: oCnt(jv(data), k) > 0 ==> knownKey("OperationProps", k) || isExtKey(k)) && (forall k string :: knownKey("OperationProps", k) ==> !isExtKey(k))
 //@   ensures  [C01,C19] lossless @@ result != nil ==> sameObject(jv(result), jv(data))
 //@   ensures  [C19] required-kept @@ result != nil ==> requiredPresent(jv(result), "operation")
+//@   ensures  [C06] no-duplicate-members @@ result != nil ==> (forall k string :: oCnt(jv(result), k) <= 1)
 
 // ---- Schema
 //@ define schemaKey(k string) bool = knownKey("SchemaProps", k) || knownKey("SwaggerSchemaProps", k)
@@ -1667,7 +1682,7 @@ package spec
 //@       && reprintStr(decOf("string", oVal(j, "$schema"))) == decOf("string", oVal(j, "$schema")) && encOf(decOf("string", oVal(j, "$schema"))) == oVal(j, "$schema")
 //@ define nfUnknownKeywords(j smt:JV) bool = forall k string :: schemaRest(j, k) ==> encOf(decOf("interface{}", oVal(j, k))) == oVal(j, k)
 //@ func verifLemmaSchemaRoundTrip
-//@   property C01, C19
+//@   property C01, C19, C06
 //@   chained
 //@   requires isObj(jv(data)) && noDuplicates(jv(data))
 //@   requires nfKind(jv(data), "SchemaProps", "schema") && nfKind(jv(data), "SwaggerSchemaProps", "schema") && nfRefMember(jv(data)) && nfSchemaURLMember(jv(data)) && nfUnknownKeywords(jv(data))
@@ -1679,6 +1694,7 @@ package spec
 //@   ensures  [C01] schema-url-kept @@ result != nil ==> oCnt(jv(result), "$schema") == oCnt(jv(data), "$schema") && (oCnt(jv(data), "$schema") > 0 ==> oVal(jv(result), "$schema") == oVal(jv(data), "$schema"))
 //@   ensures  [C01] other-members-kept @@ result != nil ==> (forall k string :: !schemaKey(k) && k != "$ref" && k != "$schema" ==> oCnt(jv(result), k) == oCnt(jv(data), k) && (oCnt(jv(data), k) > 0 ==> oVal(jv(result), k) == oVal(jv(data), k)))
 //@   ensures  [C01,C19] lossless @@ result != nil ==> sameObject(jv(result), jv(data))
+//@   ensures  [C06] no-duplicate-members @@ result != nil ==> (forall k string :: oCnt(jv(result), k) <= 1)
 
 // ---- union types: first-byte dispatch (C07)
 //@ specfn jWF([]byte) bool
